@@ -161,6 +161,20 @@ func init() {
 						}
 					case 1:
 						body = []byte{0xff, 0xfe, 0x00, 0x13, 0x37}
+					case 3:
+						// an error body that is damaged only AFTER a valid code / message field: it does not decode, so it is the fallback
+						body = errBody(uint64(1000+int(status)), fmt.Sprintf("msg-%d", status))
+						switch status % 3 {
+						case 0:
+							body = append(body, 0x07) // stray byte: illegal wire type
+						case 1:
+							body = body[:len(body)-1] // truncated inside the message
+						default:
+							body = append([]byte{0x08, 0x2a, 0x17}, body...) // a code field, then an illegal tag
+						}
+						if cd == protocol.CodecJSON {
+							body = []byte(fmt.Sprintf(`{"code":%d,"msg":"msg-%d"}}`, 1000+int(status), status))
+						}
 					}
 					pc.Send(respFrame(f, status, body))
 				}
@@ -172,7 +186,7 @@ func init() {
 			}
 			defer cl.Close(nil)
 			for st := 0; st < 256; st++ {
-				for kind := 0; kind < 3; kind++ {
+				for kind := 0; kind < 4; kind++ {
 					tag := int32(st | kind<<8)
 					res, err := doTagged(t, cl, 100, tag, 8)
 					key := "err_mapping"
